@@ -8,7 +8,7 @@ RULE = ("every event history of the MC_Parser instances children / attrs / text 
 
 
 def run(tier, rep):
-    pc.check(rep, "C03", tier, ["children", "attrs", "text"], {"schema", "unsound"}, "C03",
+    pc.check(rep, "C03", tier, ["children", "attrs", "text", "mixed"], {"schema", "unsound"}, "C03",
              sessions=400 if tier == "quick" else 6000, nontrivial=pc.has_demotion_or_multi, rule=RULE,
              invariants=["TypeOK", "Exact", "StackWF", "ResultWF"])
     pc.mechanism_trace(rep, "C03", 150 if tier == "quick" else 3000)
